@@ -53,3 +53,29 @@ def keysFirst (a b : Head) (key : List UInt8) (off : Int) (max : Nat) : Int × L
   answer b.next (pick a.recs key off max)
 
 end Klev.HeadRead
+
+/-! ### `GetByTime` past every message while the head it met empty fills up (defect D21)
+
+`log.GetByTime` walks the segments from the newest to the oldest. When the head is empty at its
+look and the segment before it answers "after its end", the answer is "not found" — unless the
+walk looks at the head a second time (`Get(OffsetOldest)` of "the next segment"), which by then
+may hold a message of a Publish that landed meanwhile, with any time. The repaired code remembers
+that the head was empty (`headEmpty`, the regenerated fact `getByTimeRemembersEmptyHead`). -/
+namespace Klev.HeadRead
+open Klev
+
+/-- The first message at or after `ts` (what a sequential `GetByTime` returns on these records). -/
+def firstAt (recs : List Msg) (ts : Int) : Option Msg := recs.find? (fun m => decide (ts ≤ m.time))
+
+/-- The walk with a sealed segment `seg` before a head that was empty at its look: repaired —
+the head is not looked at again. -/
+def gbtRemember (seg : List Msg) (ts : Int) : Option Msg := firstAt seg ts
+
+/-- … and as it was: "after the end" of `seg` hands over to the first message of the head as it
+is *now* (`headLater`). -/
+def gbtRelook (seg headLater : List Msg) (ts : Int) : Option Msg :=
+  match firstAt seg ts with
+  | some m => some m
+  | none => headLater.head?
+
+end Klev.HeadRead
